@@ -36,7 +36,14 @@ func genC15(t *rapid.T) HistCase {
 		DefaultCrt: rapid.SampledFrom([]string{"", "", "a/t1", "b/t3", "a/nope"}).Draw(t, "defcrt"),
 		Shards:     rapid.SampledFrom([]int{0, 0, 2}).Draw(t, "shards"),
 	}
-	return genHistory(t, c15Profile(), params, c15Kinds, sizeScale(5, 9), 3)
+	p := c15Profile()
+	if chanceT(t, "dashnames", 30) {
+		// names with dashes: a/b-t1 and a-b/t1 are two secrets (of two tenants) whose namespace and name
+		// concatenate to the same text
+		p.NS = []string{"a", "a-b"}
+		p.SecretNames = []string{"t1", "b-t1", "t3"}
+	}
+	return genHistory(t, p, params, c15Kinds, sizeScale(5, 9), 3)
 }
 
 // refCertID is the identity of the certificate a secret holds ("" when the
